@@ -64,7 +64,10 @@ void h_init_deinit(void)
 	iv_init();
 	__CPROVER_assert(g_key_creates == (verif_in.key_allocated ? 0 : 1) && iv_state_key_allocated == 1, "[C18] the TLS key is allocated once per process");
 	__CPROVER_assert(g_allocs == 1 && verif_st == (struct iv_state *)g_block && g_block_size == 2048, "[C18] one zeroed block of the total state size becomes the thread's loop state");
-	__CPROVER_assert(g_at_fd_init && g_at_fd_init < g_at_task_init && g_at_task_init < g_at_timer_init && g_at_timer_init < g_at_event_init && g_at_event_init < g_at_tls_init, "[C18] init order: poll method, tasks, timers, events, module hooks");
+	__CPROVER_assert(g_at_fd_init && g_at_task_init && g_at_timer_init && g_at_event_init && g_at_tls_init, "[C18,C06] every subsystem of the thread's loop state is initialised");
+	__CPROVER_assert(g_at_fd_init < g_at_event_init, "[C18,C08] the poll method is chosen before the event subsystem asks it for a kick transport");
+	__CPROVER_assert(g_at_fd_init < g_at_tls_init && g_at_task_init < g_at_tls_init && g_at_timer_init < g_at_tls_init && g_at_event_init < g_at_tls_init,
+			 "[C18,C06,C04,C08] descriptors, tasks, timers and events are all initialised before the module hooks run: a hook is user code and may register any of them");
 	__CPROVER_assert(iv_inited(), "[C18] iv_inited reports an initialised thread");
 	iv_deinit();
 	check_deinit_order();
